@@ -44,3 +44,37 @@ func VerifHarness_PluginMessageFraming() {
 	var back Message
 	zz.Assert(back.Decode(c, bytes.NewReader(b)) == nil && bytes.Equal(back.Data, m.Data), "the plugin message does not round-trip")
 }
+
+// 1.7 plugin messages with bodies around the boundaries of the Forge "extended short" length prefix: up to
+// 32767 bytes the prefix is the plain 2-byte short; from 32768 on the short carries the low 15 bits with
+// the top bit set and a third byte carries bits 15..22.
+func VerifHarness_PluginMessage17Large() {
+	p := zz.Int32()
+	zz.Assume(p >= 4 && p < 47)
+	c := &proto.PacketContext{Direction: proto.ClientBound, Protocol: proto.Protocol(p)}
+	if zz.Bool() {
+		c.Direction = proto.ServerBound
+	}
+	sizes := []int{127, 128, 255, 256, 32766, 32767, 32768, 32769, 65535, 65536, 65537, 98304, 1 << 20}
+	n := sizes[zz.Choose(len(sizes))]
+	data := make([]byte, n)
+	data[0], data[n-1] = zz.Byte(), zz.Byte()
+	m := &Message{Channel: "FML", Data: data}
+	var buf bytes.Buffer
+	zz.Assert(m.Encode(c, &buf) == nil, "encoding a large 1.7 plugin message failed")
+	b := buf.Bytes()
+	zz.Assert(len(b) > 4 && b[0] == 3 && string(b[1:4]) == "FML", "the channel string is malformed")
+	rest := b[4:]
+	// reference reader of the length prefix
+	low := int(rest[0])<<8 | int(rest[1])
+	got, hdr := low, 2
+	if low&0x8000 != 0 {
+		got, hdr = low&0x7FFF|int(rest[2])<<15, 3
+	}
+	zz.Assert(got == n, "a 1.7 peer reads a different body length from the (extended) short prefix")
+	zz.Assert((n <= 0x7FFF) == (hdr == 2), "the third length byte is present exactly for bodies of 32768 bytes and more")
+	zz.Assert(len(rest) == hdr+n && rest[hdr] == data[0] && rest[len(rest)-1] == data[n-1], "a 1.7 peer reads a different plugin message body")
+	var back Message
+	zz.Assert(back.Decode(c, bytes.NewReader(b)) == nil && len(back.Data) == n && back.Data[0] == data[0] && back.Data[n-1] == data[n-1], "the large plugin message does not round-trip")
+	zz.Reach("plugin-1.7-large")
+}
